@@ -1,5 +1,6 @@
 INIT Init
 NEXT Next
-CONSTANT NTokens = 420
+CONSTANTS NTokens = 420
+  NBytes = 1500
 INVARIANT Emit
 CHECK_DEADLOCK FALSE
